@@ -234,7 +234,7 @@ else:
         current_path = f"{path}.{name}" if path else name
 
         if value is None:
-            if _is_optional(expected):
+            if _is_optional(expected) or expected is Any:
                 return None
             raise ValidationError("field required", current_path, "missing")
 
@@ -604,11 +604,14 @@ else:
             # Process aliases
             processed_data = self._process_aliases(data)
 
+            # Fields given explicitly (a required field typed Any may be null)
+            provided = set(processed_data)
+
             # Build field values
             values = self._build_field_values(processed_data)
 
             # Validate required fields
-            self._validate_required_fields(values)
+            self._validate_required_fields(values, provided)
 
             # Validate types
             self._validate_types(values)
@@ -650,11 +653,18 @@ else:
 
             return values
 
-        def _validate_required_fields(self, values: Dict[str, Any]):
+        def _validate_required_fields(
+            self, values: Dict[str, Any], provided: Optional[Set[str]] = None
+        ):
             """Validate that all required fields are present."""
             missing = []
+            annotations = getattr(self.__class__, "__annotations__", {})
             for name in self.__class__.__model_required__:
                 if values.get(name) is None:
+                    # An explicit null is a value for a field typed Any
+                    # (e.g. a JSON-RPC response with "result": null)
+                    if provided and name in provided and annotations.get(name) is Any:
+                        continue
                     missing.append(name)
 
             if missing:
